@@ -42,7 +42,7 @@ p=os.path.join(out,'agent_meta.json')
 if os.path.exists(p):
     try: am=json.load(open(p))
     except Exception: am={}
-meta={"property":prop,"round":4,"summary":am.get("summary"),"needs_to_manifest":am.get("needs_to_manifest"),"files_touched":am.get("files_touched"),
+meta={"property":prop,"round":int(os.environ.get("ROUND","4")),"summary":am.get("summary"),"needs_to_manifest":am.get("needs_to_manifest"),"files_touched":am.get("files_touched"),
  "origin":"written by an independent sub-agent that saw only the property text, summaries of earlier seeded changes and its own scratch worktree",
  "confirmed_by_us":{"builds":build,"existing_suite_with_patch":suite,"packages_tested":pkgs.split(),"demo_destination":dest,"demo_with_patch":w,"demo_without_patch":wo},
  "our_checks":{"quick":{"cmd":f"./vcheck {prop} quick","exit":int(qrc),"signatures":qsig}},
